@@ -841,7 +841,7 @@ where
 	K: Keychain + 'a,
 {
 	let height = block_fees.height;
-	let lock_height = height + global::coinbase_maturity();
+	let lock_height = height.saturating_add(global::coinbase_maturity());
 	let key_id = block_fees.key_id();
 
 	// A mining node may re-request a coinbase for the key of the candidate it replaces,
